@@ -24,6 +24,8 @@ struct Cfg {
     #[serde(default)]
     npts: usize,
     #[serde(default)]
+    zx: usize,
+    #[serde(default)]
     len: usize,
     #[serde(default)]
     zeros: usize,
@@ -56,6 +58,10 @@ pub fn main(args: &[String]) -> i32 {
                     if !xs.contains(&x) {
                         xs.push(x);
                     }
+                }
+                // the point x = 0 at the position the scenario names (0 = not in the set)
+                if c.zx >= 1 && c.zx <= xs.len() {
+                    xs[c.zx - 1] = Toy::ZERO;
                 }
                 let ys: Vec<Toy> = (0..c.npts).map(|_| Toy::new(rng.below(P))).collect();
                 let mut res = serde_json::Map::new();
@@ -102,6 +108,10 @@ pub fn main(args: &[String]) -> i32 {
                         if !row.contains(&x) {
                             row.push(x);
                         }
+                    }
+                    // x = 0 at a rotating position of every other row
+                    if (c.zx + bxs.len()) % 2 == 1 {
+                        row[(c.zx + bxs.len()) % 4] = Toy::ZERO;
                     }
                     bxs.push([row[0], row[1], row[2], row[3]]);
                     bys.push([Toy::new(rng.below(P)), Toy::new(rng.below(P)), Toy::new(rng.below(P)), Toy::new(rng.below(P))]);
